@@ -26,7 +26,7 @@ import random
 import numpy as np
 
 from .. import c04_probe as pr
-from .. import core, embed, lat
+from .. import core, embed, fld, lat
 from ..core import Part
 
 META = dict(
@@ -141,7 +141,7 @@ def build(df, emb, mc, dims, bc, nv, vdims, mapping, arr, valid=None, unit=None,
     f = pr.make_field(df, mesh, car, arr, valid)
     if first is not vdims:
         f.vdims = list(vdims)
-    return f
+    return fld.afterlife(f, sum(mc["n"]) + nv + len(bc))
 
 
 def call_op(f, op):
